@@ -105,6 +105,32 @@ fn noncanonical_nonce_case(ctx: &mut Ctx, idx: usize) {
     }
 }
 
+/// A merchant key whose slot-`i` generators are the identity gives slot `i` no weight: with `i` = the nonce /
+/// close-tag slot, state and close-state messages would be indistinguishable to every signature.  Such a key
+/// (every single slot, in G1, in G2, in both) must not decode.
+fn identity_slot_key_case(ctx: &mut Ctx, idx: usize, w: &World) {
+    if !ctx.begin_case(idx, "key-with-identity-slot") {
+        return;
+    }
+    let book = ctx.book.clone();
+    let honest = wire::pk_bytes(&book, &w.kpd.pk); // g1 48 | len 8 | y1s 5x48 | g2 96 | x2 96 | len 8 | y2s 5x96
+    let (o1, o2) = (48 + 8, 48 + 8 + 5 * 48 + 96 + 96 + 8);
+    for i in 0..5 {
+        for which in 0..3 {
+            let mut b = honest.clone();
+            if which != 1 { b[o1 + 48 * i..o1 + 48 * (i + 1)].copy_from_slice(&{ let mut z = vec![0u8; 48]; z[0] = 0xc0; z }); }
+            if which != 0 { b[o2 + 96 * i..o2 + 96 * (i + 1)].copy_from_slice(&{ let mut z = vec![0u8; 96]; z[0] = 0xc0; z }); }
+            ctx.evals += 1;
+            let ok = wire::de::<zkabacus_crypto::PublicKey>(&b).is_ok();
+            ctx.count(&format!("key-decode:identity-in-slot:{}", if ok { "ACCEPTED" } else { "refused" }));
+            if ok {
+                ctx.violation(&format!("a public key whose slot-{} generator ({}) is the identity decodes: that slot of every signed message carries no weight{}", i + 1, ["G1", "G2", "G1 and G2"][which], if i == 1 { " — the nonce / close-tag slot: pay tokens and closing signatures become interchangeable" } else { "" }),
+                    json!({"class": "key-with-identity-slot-decodes", "slot": i + 1, "bytes": hex::encode(&b)}));
+            }
+        }
+    }
+}
+
 fn swap_case(ctx: &mut Ctx, idx: usize, w: &World) {
     if !ctx.begin_case(idx, "token-vs-closing-signature") {
         return;
@@ -225,4 +251,5 @@ pub fn run(ctx: &mut Ctx) {
         idx += 1; channel_id_case(ctx, idx, &w);
     }
     idx += 1; key_input_case(ctx, idx, &w, &w2);
+    idx += 1; identity_slot_key_case(ctx, idx, &w);
 }
